@@ -680,6 +680,10 @@ type NewOptions struct {
 	TargetLLA        LinkLayerAddress
 	DNSSearchList    DNSSearchList
 	RouteInformation RouteInformation
+	// An advertisement may carry several route information, RDNSS and DNSSL options, each with its
+	// own lifetime (RFC 4191 2.3, RFC 8106 5.1/5.2): every well-formed one, in packet order.
+	// The single fields above keep their previous meaning (last route / last lifetime over all servers / last list).
+	Routes []RouteInformation
 }
 
 func newParseOptions(b []byte) (NewOptions, error) {
@@ -733,6 +737,8 @@ func newParseOptions(b []byte) (NewOptions, error) {
 		case optRouteInformation:
 			if err := options.RouteInformation.unmarshal(b[i : i+l]); err != nil {
 				Logger.Msg("ignore invalid route information option").Error(err).ByteArray("options", b).Write()
+			} else {
+				options.Routes = append(options.Routes, options.RouteInformation)
 			}
 		case optRDNSS:
 			if err := options.RDNSS.unmarshal(b[i : i+l]); err != nil {
